@@ -1,11 +1,34 @@
-from engine.xh import Cond
+from props._parser_plans import *
+from harness import c18 as H
+
 
 def plan(tier, seed):
     q = tier == "quick"
     conds = [
-        Cond("u1-arith", "harness/c18.py", "u1_arith", env={"C18_MAXLEN": 4 if q else 6}, timeout=100 if q else 600),
+        Cond("u1-arith", "harness/c18.py", "u1_arith", env={"C18_MAXLEN": 4 if q else 6}, timeout=200 if q else 1500),
         Cond("u1-arith-vac", "harness/c18.py", "u1_arith", env={"C18_MAXLEN": 2}, timeout=60, vacuity=True),
     ]
-    meta = dict(functions=["sievelib.parser.Lexer.curlineno", "sievelib.parser.Lexer.curcolno"],
-                bounds={"text_bytes": 4 if q else 6}, assumptions=[])
+    for pi in range(H.NP):
+        conds.append(Cond("u2-templates-p%d" % pi, "harness/c18.py", "u2", env={"U2_PREFIX": pi}, timeout=300))
+    conds.append(Cond("u2-vacuity", "harness/c18.py", "u2", env={"U2_PREFIX": 1}, timeout=60, vacuity=True))
+    if q:
+        conds += t1_conds("c18", "full", 2, 8, timeout=200)
+        conds += t2_conds("c18", 3, timeout=240)
+        b3 = "full vocabulary N=2; every command K=3"
+    else:
+        conds += t1_conds("c18", "full", 3, 44, timeout=1500)
+        conds += t1_conds("c18", "full", 3, 44, sep="crlf", timeout=1500)
+        conds += t2_conds("c18", 4, timeout=2400, split=6)
+        b3 = "full vocabulary N=3 (LF and CRLF); every command K=4"
+    meta = dict(functions=["sievelib.parser.Lexer.curlineno", "sievelib.parser.Lexer.curcolno", "sievelib.parser.Lexer.scan",
+                           "sievelib.parser.Parser.parse (error / error_pos assembly)"] + PARSER_FUNCS[2:],
+                bounds={"U1": "every byte string of length <= %d and every position" % (4 if q else 6),
+                        "U2": "%d valid multi-line prefixes (comments, multi-byte text) x 0-3 blank lines x 0-3 leading spaces x "
+                              "LF/CRLF x %d offending tokens (every class in the statement) x %d different continuations"
+                              % (H.NP, H.NO, len(H.SUFFIXES)),
+                        "U3 (other rejections)": b3},
+                outside=["scripts larger than the templates", "columns count bytes, as the statement says"],
+                assumptions=COMMON_ASSUME[:3] + ["U2: with CRLF line ends the prefix that contains a text: block is replaced by an "
+                                                 "equivalent one with a quoted string (text: + CRLF is a known finding of C01)"],
+                stubs=["LazyScript(bytearray) supplies the script in U3"])
     return dict(conds=conds, meta=meta)
